@@ -1,9 +1,11 @@
 import PytezosModel.Proofs.Encoding
+import PytezosModel.Crypto.RealHash
 /-! C09 — Base58Check typed encodings are unambiguous and invertible.
 
 `Impl.Encoding.base58Encode / base58Decode / validate` mirror `base58_encode / base58_decode / _validate` of
 `src/pytezos/crypto/encoding.py` over the table regenerated from the source.  `cks` is the checksum function
-(first four bytes of double SHA-256), about which only `CksOk` (it returns four bytes) is assumed.
+(first four bytes of double SHA-256), about which only `CksOk` (it returns four bytes) is assumed; the section
+"the real checksum" instantiates it with the executable SHA-256 (`RealHash.cks`), which is what the driver runs.
 All statements quantify over every row of the regenerated table, every payload of the row's length and every
 string; the only finite evaluations are the closed per-row / per-pair facts about the table. -/
 namespace C09
@@ -204,5 +206,73 @@ example : (b58encCheck exCks ([6, 161, 158] ++ List.replicate 20 255)).take 4 = 
 example : (isKind exCks "is_bh" (b58encCheck exCks ([6, 149, 135, 204] ++ List.replicate 48 7)),
     isKind exCks "is_public_key" (b58encCheck exCks ([6, 149, 135, 204] ++ List.replicate 48 7)))
     = (some false, some true) := by decide +kernel
+
+/-! ### the real checksum: first four bytes of SHA-256 (SHA-256 v), executable (`Core/HashSha2.lean`)
+
+The statements above hold for every 4-byte checksum function; here they are instantiated with the function the driver
+runs and the `base58` library computes, so that they speak about the very strings pytezos returns.  The known-answer
+examples (kernel evaluation of the Lean SHA-256 inside the proof assistant) use the FIPS 180-4 `"abc"` vector, the
+mainnet chain id and the addresses of tests/unit_tests/test_crypto/test_encoding.py. -/
+
+/-- the executable double-SHA-256 checksum returns four bytes, whatever the input -/
+theorem sha256d4_ok : CksOk RealHash.cks := ⟨RealHash.cks_length, RealHash.cks_bytes⟩
+
+/-- with the real checksum: every payload of every kind encodes to a string of the documented length and prefix -/
+theorem kind_prefix_and_length_sha256 (r : Row) (hr : r ∈ table) (v : List Nat) (hl : v.length = r.dataLen)
+    (hv : IsBytes v) :
+    ∃ s, base58Encode RealHash.cks v r.human = .ok s ∧ s.length = r.encLen ∧ r.human <+: s :=
+  kind_prefix_and_length RealHash.cks sha256d4_ok r hr v hl hv
+
+/-- with the real checksum: `base58_decode(base58_encode(v, prefix)) = v` -/
+theorem roundtrip_sha256 (r : Row) (hr : r ∈ table) (v : List Nat) (hl : v.length = r.dataLen) (hv : IsBytes v)
+    (s : List Nat) (hs : base58Encode RealHash.cks v r.human = .ok s) : base58Decode RealHash.cks s = .ok v :=
+  decode_encode RealHash.cks sha256d4_ok r hr v hl hv s hs
+
+/-- with the real checksum: `base58_decode` accepts nothing but the canonical encodings of registered kinds -/
+theorem decode_sound_sha256 (s v : List Nat) (h : base58Decode RealHash.cks s = .ok v) :
+    ∃ r ∈ table, v.length = r.dataLen ∧ IsBytes v ∧ base58Encode RealHash.cks v r.human = .ok s :=
+  decode_sound RealHash.cks sha256d4_ok s v h
+
+/-- with the real checksum: a Base58Check text belongs to one kind and has one payload -/
+theorem kinds_disjoint_sha256 (r r' : Row) (hr : r ∈ table) (hr' : r' ∈ table) (v v' : List Nat)
+    (hl : v.length = r.dataLen) (hv : IsBytes v) (hl' : v'.length = r'.dataLen) (hv' : IsBytes v')
+    (s : List Nat) (h : base58Encode RealHash.cks v r.human = .ok s) (h' : base58Encode RealHash.cks v' r'.human = .ok s) :
+    r = r' ∧ v = v' :=
+  kinds_disjoint RealHash.cks sha256d4_ok r r' hr hr' v v' hl hv hl' hv' s h h'
+
+/-- with the real checksum: the `is_*` predicates accept exactly the encodings of their kinds -/
+theorem validators_exact_sha256 (prefixes : List (List Nat)) (s : List Nat) :
+    validate RealHash.cks prefixes s = .ok () ↔
+      ∃ r ∈ table, r.human ∈ prefixes ∧ ∃ v, v.length = r.dataLen ∧ IsBytes v ∧
+        base58Encode RealHash.cks v r.human = .ok s :=
+  validators_exact RealHash.cks sha256d4_ok prefixes s
+
+-- FIPS 180-4, SHA-256("abc") = ba7816bf 8f01cfea 414140de 5dae2223 b00361a3 96177a9c b410ff61 f20015ad
+example : Core.Hash.sha256 [97, 98, 99] =
+    [0xba, 0x78, 0x16, 0xbf, 0x8f, 0x01, 0xcf, 0xea, 0x41, 0x41, 0x40, 0xde, 0x5d, 0xae, 0x22, 0x23,
+     0xb0, 0x03, 0x61, 0xa3, 0x96, 0x17, 0x7a, 0x9c, 0xb4, 0x10, 0xff, 0x61, 0xf2, 0x00, 0x15, 0xad] := by decide +kernel
+-- two-block message (56 bytes "abcdbcde…nopq" of FIPS 180-4): 248d6a61 d20638b8 …
+example : (Core.Hash.sha256 [97,98,99,100,98,99,100,101,99,100,101,102,100,101,102,103,101,102,103,104,102,103,104,105,
+    103,104,105,106,104,105,106,107,105,106,107,108,106,107,108,109,107,108,109,110,108,109,110,111,109,110,111,112,
+    110,111,112,113]).take 8 = [0x24, 0x8d, 0x6a, 0x61, 0xd2, 0x06, 0x38, 0xb8] := by decide +kernel
+-- the mainnet chain id `NetXdQprcVkpaWU` = Base58Check of 57 52 00 ‖ 7a06a770, computed by the model itself
+example : (base58Encode RealHash.cks [0x7a, 0x06, 0xa7, 0x70] [78, 101, 116]).toOption =
+    some [78, 101, 116, 88, 100, 81, 112, 114, 99, 86, 107, 112, 97, 87, 85] := by decide +kernel
+-- `tz1eKkWU5hGtfLUiqNpucHrXymm83z3DG9Sq` (test_encoding.py) decodes to its 20-byte hash and encodes back to itself
+example : (base58Decode RealHash.cks [116, 122, 49, 101, 75, 107, 87, 85, 53, 104, 71, 116, 102, 76, 85, 105, 113, 78, 112,
+    117, 99, 72, 114, 88, 121, 109, 109, 56, 51, 122, 51, 68, 71, 57, 83, 113]).toOption =
+    some [204, 245, 100, 165, 160, 189, 177, 92, 61, 189, 248, 77, 104, 218, 202, 195, 225, 249, 104, 163] := by decide +kernel
+example : (base58Encode RealHash.cks [204, 245, 100, 165, 160, 189, 177, 92, 61, 189, 248, 77, 104, 218, 202, 195, 225, 249,
+    104, 163] [116, 122, 49]).toOption = some [116, 122, 49, 101, 75, 107, 87, 85, 53, 104, 71, 116, 102, 76, 85, 105, 113, 78, 112,
+    117, 99, 72, 114, 88, 121, 109, 109, 56, 51, 122, 51, 68, 71, 57, 83, 113] := by decide +kernel
+-- the same text with its last character changed (`q` → `r`) fails the real checksum
+example : (match base58Decode RealHash.cks [116, 122, 49, 101, 75, 107, 87, 85, 53, 104, 71, 116, 102, 76, 85, 105, 113, 78, 112,
+    117, 99, 72, 114, 88, 121, 109, 109, 56, 51, 122, 51, 68, 71, 57, 83, 114] with
+    | .error e => some e | .ok _ => none) = some Err.invalidChecksum := by decide +kernel
+-- `KT1ExvG3EjTrvDcAU7EqLNb77agPa5u6KvnY` (test_encoding.py): `is_kt` accepts, `is_pkh` rejects
+example : (isKind RealHash.cks "is_kt" [75, 84, 49, 69, 120, 118, 71, 51, 69, 106, 84, 114, 118, 68, 99, 65, 85, 55, 69, 113,
+      76, 78, 98, 55, 55, 97, 103, 80, 97, 53, 117, 54, 75, 118, 110, 89],
+    isKind RealHash.cks "is_pkh" [75, 84, 49, 69, 120, 118, 71, 51, 69, 106, 84, 114, 118, 68, 99, 65, 85, 55, 69, 113,
+      76, 78, 98, 55, 55, 97, 103, 80, 97, 53, 117, 54, 75, 118, 110, 89]) = (some true, some false) := by decide +kernel
 
 end C09
